@@ -26,10 +26,11 @@ type bechAbs struct {
 
 // b58Abs mirrors B58Str.
 type b58Abs struct {
-	V      int    `json:"v"`
-	Plen   int    `json:"plen"`
-	Ck     string `json:"ck"`
-	Defect string `json:"defect"`
+	V         int    `json:"v"`
+	Plen      int    `json:"plen"`
+	Ck        string `json:"ck"`
+	Defect    string `json:"defect"`
+	SegPrefix bool   `json:"segprefix"`
 }
 
 // pkHexAbs mirrors the abstract hex public key.
@@ -73,10 +74,16 @@ func refHrpExpand(hrp string) []byte {
 	return out
 }
 
+// segPrefix: the text up to and including the last '1' is a registered segwit
+// prefix, whatever the case of its letters.
+func (w *world) segPrefix(s string) bool {
+	sep := strings.LastIndexByte(s, '1')
+	return sep > 1 && w.regPrefix[strings.ToLower(s[:sep+1])]
+}
+
 // formOf is FormOf of AddrCodec.tla: the dispatch of DecodeAddress.
 func (w *world) formOf(s string) string {
-	sep := strings.LastIndexByte(s, '1')
-	if sep > 1 && w.regPrefix[strings.ToLower(s[:sep+1])] {
+	if w.segPrefix(s) {
 		return "bech"
 	}
 	if len(s) == 66 || len(s) == 130 {
@@ -216,7 +223,7 @@ func refB58Encode(b []byte) string {
 
 // abstractB58 computes the attributes of a string of the Base58Check form; ids
 // is the set of version bytes the specification's table lists.
-func abstractB58(s string, ids map[int]bool) (b58Abs, []byte) {
+func abstractB58(s string, ids map[int]bool, segprefix bool) (b58Abs, []byte) {
 	raw, ok := refB58Decode(s)
 	if !ok {
 		return b58Abs{V: -1, Ck: "bad", Defect: "badchar"}, nil
@@ -224,7 +231,7 @@ func abstractB58(s string, ids map[int]bool) (b58Abs, []byte) {
 	if len(raw) < 5 {
 		return b58Abs{V: -1, Ck: "bad", Defect: "short"}, nil
 	}
-	a := b58Abs{V: int(raw[0]), Plen: len(raw) - 5, Ck: "bad", Defect: "none"}
+	a := b58Abs{V: int(raw[0]), Plen: len(raw) - 5, Ck: "bad", Defect: "none", SegPrefix: segprefix}
 	if !ids[a.V] {
 		a.V = -1
 	}
